@@ -184,6 +184,8 @@ def hole_operators(rng, nm, same_spin_only):
     with and without an explicit constant - as FermionOperators in the alternating numbering (nm modes)."""
     modes = range(nm)
     pairs = [(p, q) for p in modes for q in modes if p <= q and (not same_spin_only or p % 2 == q % 2)]
+    if len(pairs) > 4:          # keep the operators small (a handful of words): the spelling matters, not the size
+        pairs = rng.sample(pairs, 4)
     out = []
     t = {pq: rng.choice([-2, -1, 1, 2]) for pq in pairs}
     hop = []
@@ -193,14 +195,13 @@ def hole_operators(rng, nm, same_spin_only):
             hop.append((c, ((q, 0), (p, 1))))
     out.append(("hole-hopping", fsum(hop)))
     out.append(("hole-hopping+constant", fsum(hop + [(rng.choice([-3, 2]), ())])))
-    out.append(("holes-as-a.adag", fsum([(rng.randint(1, 3), ((p, 0), (p, 1))) for p in modes])))
+    out.append(("holes-as-a.adag", fsum([(rng.randint(1, 3), ((p, 0), (p, 1))) for p in list(modes)[:4]])))
     if nm >= 2:
         nn = []
-        for p in modes:
-            for q in modes:
-                if p < q:
-                    c = rng.randint(1, 2)
-                    nn += [(c, ((p, 1), (p, 0), (q, 0), (q, 1))), (c, ((q, 0), (q, 1), (p, 1), (p, 0)))]
+        pq = [(p, q) for p in modes for q in modes if p < q]
+        for p, q in (pq if len(pq) <= 3 else rng.sample(pq, 3)):
+            c = rng.randint(1, 2)
+            nn += [(c, ((p, 1), (p, 0), (q, 0), (q, 1))), (c, ((q, 0), (q, 1), (p, 1), (p, 0)))]
         out.append(("n(1-n)+constant", fsum(nn + [(1, ())])))
     one = fsum([(c, ((p, 1), (q, 0))) for (p, q), c in t.items()] + [(c, ((q, 1), (p, 0))) for (p, q), c in t.items() if p != q])
     out.append(("one-body-squared", copy.deepcopy(one) * copy.deepcopy(one)))
